@@ -164,6 +164,8 @@ SPEC["C18"] = {
          "a non-test (or no identifier at all) in test position: reported at that token"),
         ("C18_argument_at_token", "RejectFacts.illegal_arguments_rejected",
          "a tag the command does not take, a tag whose extension is not loaded, a surplus or ill-typed argument: reported at a token of the argument list"),
+        ("C18_lexical_error_after_prefix", "RejectFacts.lexical_error_rejected",
+         "a byte sequence that is no token, after a prefix of the grammar: reported at the place where no rule matches"),
         ("C18_test_argument_at_token", "RejectFacts.test_argument_rejected",
          "a tag the test does not take / whose extension is not loaded, an ill-typed value in a test: reported at that token"),
         ("C18_lexer_moves_forward", "RejectFacts.lex_order",
@@ -286,6 +288,12 @@ SPEC["C01"] = {
          "the text ends while blocks are open: rejected at the end of the text"),
         ("C01_unfinished_command_rejected", "RejectFacts.unfinished_command_rejected",
          "the text ends inside a command (missing semicolon): rejected at the end of the text"),
+        ("C01_lexical_error_rejected", "RejectFacts.lexical_error_rejected",
+         "bytes that are no token after a prefix of the grammar: rejected at the place where no lexer rule matches"),
+        ("C01_missing_block_rejected", "RejectFacts.missing_block_rejected",
+         "after `if <test>` anything but '{' (a missing block): rejected at that token"),
+        ("C01_missing_block_example", "RejectExamples.ex_missing_block",
+         "non-vacuity: `if size :over 100K stop;` (and ex_lexical_error: `%` inside a block)"),
         ("C01_test_argument_rejected", "RejectFacts.test_argument_rejected",
          "in the arguments of a test that still needs arguments: a tag it does not take, a tag whose extension is not loaded, a value of the wrong type -- rejected at that token"),
         ("C01_test_argument_examples", "RejectExamples.ex_unknown_tag_in_test",
@@ -295,7 +303,7 @@ SPEC["C01"] = {
         ("C01_misplaced_else_example", "RejectExamples.ex_misplaced_else",
          "non-vacuity: `stop; else { stop; } keep;` rejected with 'must follow' at the closing brace, from the theorem"),
         ("C01_reject_examples", "RejectExamples.ex_unknown",
-         "non-vacuity on the generated tables (one of twenty examples in sieve/RejectExamples.v: prefix `require [\"fileinto\"]; if size :over 100K {`)"),
+         "non-vacuity on the generated tables (one of twenty-two examples in sieve/RejectExamples.v: prefix `require [\"fileinto\"]; if size :over 100K {`)"),
         ("C01_accept_final_state", "GateFacts.parse_accept_reachable",
          "an accepted script ends with an empty command stack, balanced brackets and nothing expected"),
         ("raw", """(* which commands of the current tables the interpreter theorem covers (re-checked on every run) *)
